@@ -137,7 +137,9 @@ package sstables
 // The merge iterator reports every queue error other than Done, and never reports Done while the queue failed.
 
 //@ func (*MergeCompactionIterator).Next
-//@   props C11
+//@   props C11 C08
+//@   replay super_reader_model
+//@   bounded super_reader_model stacked reader and merge vs. reference map: all stacks of <= 2 (quick) / <= 3 (thorough, one third) tables over keys {"", a, b} x {absent, value, tombstone}
 //@   ensures [queue-errors-reported] forall j :: old(qPos(m.pq)) <= j && j < qPos(m.pq) && qErr(m.pq, j) != nil && !errIs(qErr(m.pq, j), pq.Done) ==>
 //@           r2 != nil && errIs(r2, qErr(m.pq, j)) && (errIs(r2, Done) ==> errIs(qErr(m.pq, j), Done))
 //@   ensures [done-only-after-queue-done] r2 == Done ==> qPos(m.pq) > old(qPos(m.pq)) &&
@@ -376,3 +378,8 @@ package sstables
 //@           (forall i :: 0 <= i && i < len(context) ==> context[i] <= context[m]) &&
 //@           (isnil(values[m]) ==> isnil(r0) && isnil(r1)) && (!isnil(values[m]) ==> r0 === key && r1 === values[m])
 //@   modifies nothing
+
+// (The grouping invariant of the merge iterator - the buffers hold the values of exactly one key, whatever that key is - is
+// not proved: two interleaved append targets defeat the array-separation reasoning within the time available. Grouping is
+// covered by the bounded driver super_reader_model.)
+
